@@ -178,6 +178,10 @@ func (st *c16st) step(op *Sexp) string {
 	case "newstack":
 		st.stacks = append(st.stacks, &dt.Stack[int]{})
 		return fmt.Sprintf("S%d", len(st.stacks)-1)
+	case "nspop":
+		s := &dt.Stack[int]{}
+		st.stacks = append(st.stacks, s)
+		return st.regI(s.Pop())
 	case "le":
 		return st.regE(dt.NewElement(a[0].Int()))
 	case "pf":
